@@ -208,6 +208,9 @@ def incks_model(out: Outcome, w: int, ref, pre: list, post: list, impl: list) ->
     out.traces_validated += 1
 
 
+PE_CASE = [0]
+
+
 def data_drift_cases(out: Outcome, rng, n_cases: int) -> None:
     from frouros.detectors.data_drift.streaming import IncrementalKSTest, MMD as MMDStreaming
     from frouros.metrics import PrequentialError
@@ -248,8 +251,11 @@ def data_drift_cases(out: Outcome, rng, n_cases: int) -> None:
                 incks_model(out, w, ref, pre, post, impl)
             out.case({"class": name, "window": w, "pre_len": len(pre), "post_len": len(post)}, nontrivial=len(pre) > 0)
         alpha = rng.choice([1.0, 0.999, 0.9, 0.5])
-        m1, m2 = PrequentialError(alpha=alpha), PrequentialError(alpha=alpha)
         n_pre = rng.choice([rng.randint(1, 30), rng.randint(300, 1200), 2500])      # also far beyond the point where the fading sums have converged
+        PE_CASE[0] += 1
+        if PE_CASE[0] % 4 == 1:
+            alpha, n_pre = [(0.5, 300), (0.9, 1200)][(PE_CASE[0] // 4) % 2]          # (in every run: fading sums that have CONVERGED in double precision before the reset)
+        m1, m2 = PrequentialError(alpha=alpha), PrequentialError(alpha=alpha)
         for _ in range(n_pre):
             m1(error_value=rng.choice([0, 1, 0.3]))
         m1.reset()
